@@ -5,9 +5,10 @@ CONSTANTS
   BlockSize = 6
   Prefix = 2
   Cksum = 1
+  OffMod = 14
   CODE_CapacityIgnoresPrefix = FALSE
 SPECIFICATION Spec
 CONSTRAINT Bounded
-INVARIANTS IdsDistinct RangesDisjoint Accounting NoByteLost NothingGarbled
+INVARIANTS IdsDistinct IdResolves RangesDisjoint Accounting NoByteLost NothingGarbled
 PROPERTIES Refines
 CHECK_DEADLOCK FALSE
